@@ -149,6 +149,9 @@ func (c *Ctx) Finish(level, rule string, exhaustive bool, fs []Finding) int {
 	if len(c.Samples) == 0 {
 		cov["samples"] = []any{"(none)"}
 	}
+	if c.Assumptions == nil {
+		c.Assumptions = []string{}
+	}
 	tier := "quick"
 	if c.Tier == "thorough" {
 		tier = "thorough"
